@@ -33,6 +33,17 @@ CHECKS = {
        '= fidelity for all 256^n inputs of those lengths.',
   note=TRUST + 'Outside: lengths above the bound, maildir re-serialisation, header value parsing by the email package, BINARY decoding.',
   technique='symbolic execution of the real Python code with z3 (per-path SMT proof obligations), bounded by message length'),
+ 'C05': dict(
+  text='Exhaustive exploration of the abstract state x command table (4 pre-states x 46 command forms: every built-in '
+       'command with valid/invalid arguments, existing/missing mailboxes) through the real connection loop '
+       '(_run_state, read_command, authenticate, idle, do_command) on a scripted transport and the dict backend; tagged '
+       'result, glass-box post-state, two probe commands and "refused => store and state unchanged" agree with the RFC 3501 '
+       'section 3 automaton plus a set-of-names model. Command-word letter case is symbolic (one bit per letter, all '
+       'spellings per path) and the UID base is a symbolic integer; the solver\'s role is small here and the claim over all '
+       'sequences rests on one-step induction over the abstract state; thorough adds all sequences of two commands.',
+  note=TRUST + 'Control-dominated property: the level is an exhaustive finite exploration with solver-checked symbolic '
+       'parts. TLS handshake stubbed; local peer. Outside: long random sequences, deleting the selected mailbox.',
+  technique='symbolic execution of the real connection loop with z3 over an exhaustive state x command table (inductive step)'),
  'C06': dict(
   text='Totality of the real parsers by bounded symbolic execution: every unit parser (Tag, Atom, Number, Nil, QuotedString, '
        'LiteralString, String, List, AString, Mailbox, SequenceSet, Flag, DateTime, StatusAttribute, FetchAttribute, '
